@@ -162,14 +162,15 @@ namespace
     // NOTE: the capture for readbuf in the lambda used by closer is
     // there so that we get a compiler error if the declaration (and
     // thus destruction) order becomes incorrect.
-    cleanup closer([&f, &name, &readbuf]()
+    cleanup closer([&f, &readbuf]()
 		   {
 		     (void)readbuf; // see NOTE above
-		     errno = 0;
-		     if (EOF == fclose(f))
-		       {
-			 throw DFS::FileIOError(name, errno);
-		       }
+		     // We only read from f, so a failure to close it
+		     // loses no data.  We must not throw here: this
+		     // runs in a destructor (perhaps while another
+		     // exception is propagating), and throwing would
+		     // call std::terminate().
+		     fclose(f);
 		   });
     setbuffer(f, readbuf.data(), readbuf.size());
 
